@@ -2,7 +2,11 @@
 
 package server
 
-import "perkeep.org/pkg/blob"
+import (
+	"time"
+
+	"perkeep.org/pkg/blob"
+)
 
 // VerifWake wakes the sync loop the way an arriving blob does. It exists only
 // under the "verif" build tag, for the verification harness in /verif, so that
@@ -23,4 +27,14 @@ func (sh *SyncHandler) VerifPending() (need []blob.Ref, copying int) {
 		need = append(need, br)
 	}
 	return need, len(sh.copying)
+}
+
+// VerifDisableShareDelay turns off the fixed delay the share handler inserts
+// before refusing a request, and returns a function that restores it. It exists
+// only under the "verif" build tag, so that the verification harness can
+// enumerate many refused request chains.
+func VerifDisableShareDelay() (restore func()) {
+	old := timeSleep
+	timeSleep = func(time.Duration) {}
+	return func() { timeSleep = old }
 }
